@@ -175,10 +175,30 @@ Qed.
 Lemma stack_top_le : forall s, stack_ok s -> hd 0 s <= 15.
 Proof. destruct s as [|n s]; cbn [hd stack_ok]; [lia|tauto]. Qed.
 
+(* the part of current_key below next_key spells the first next_key characters of a table key *)
+Definition pref_ok (tbl : ktable) (nk : N) (b : bytes) : Prop :=
+  nk = 0 \/ exists p idx k, nth_error tbl p = Some (idx, k) /\ firstn (N.to_nat nk) b = firstn (N.to_nat nk) k.
+
 Definition inv (tbl : ktable) (st : smst) : Prop :=
   length (s_cur st) = 18%nat /\ stack_ok (s_stack st) /\
   (forall i, (i < N.to_nat (top_key st))%nat -> nth i (s_cur st) 0 <> 0) /\
-  length (s_ents st) = length tbl.
+  length (s_ents st) = length tbl /\ pref_ok tbl (top_key st) (s_cur st).
+
+Lemma firstn_le_eq (a b : bytes) n m : firstn n a = firstn n b -> (m <= n)%nat -> firstn m a = firstn m b.
+Proof.
+  intros H Hm. rewrite <- (Nat.min_l m n Hm), <- !firstn_firstn, H. reflexivity.
+Qed.
+
+Lemma pref_ok_le tbl n m b : pref_ok tbl n b -> m <= n -> pref_ok tbl m b.
+Proof.
+  intros [->|(p & idx & k & E & F)] Hm; [left; lia|]. right. exists p, idx, k. split; [exact E|].
+  eapply firstn_le_eq; [exact F|lia].
+Qed.
+
+Lemma pref_ok_buf tbl n b b' : pref_ok tbl n b -> firstn (N.to_nat n) b' = firstn (N.to_nat n) b -> pref_ok tbl n b'.
+Proof.
+  intros [->|(p & idx & k & E & F)] Hb; [left; reflexivity|]. right. exists p, idx, k. split; [exact E|congruence].
+Qed.
 
 Definition goodr (n : nat) (l : bytes) (fuel_ok : Prop) (R : res entries) : Prop :=
   R <> Fault /\ (fuel_ok -> R <> OutOfFuel) /\
@@ -197,7 +217,7 @@ Proof. repeat split; discriminate. Qed.
 Lemma init_inv tbl e : length e = length tbl -> inv tbl (init_st e).
 Proof.
   intros He. unfold inv, init_st, init_buf, top_key. cbn [s_cur s_stack s_ents hd stack_ok].
-  rewrite repeat_length. split; [reflexivity|]. split; [exact I|]. split; [|exact He]. intros i Hi. cbn in Hi. lia.
+  rewrite repeat_length. split; [reflexivity|]. split; [exact I|]. split; [|split; [exact He|left; reflexivity]]. intros i Hi. cbn in Hi. lia.
 Qed.
 
 Lemma sm_loop_total tbl : table_ok tbl = true -> forall f st l,
@@ -207,7 +227,7 @@ Proof.
   induction f as [|f IH]; intros st l Hs Hinv.
   { cbn. repeat split; try discriminate. lia. }
   cbn [sm_loop]. destruct l as [|c l']; [apply goodr_reject|].
-  destruct Hinv as (Hlen & Hstk & Hnz & Hents).
+  destruct Hinv as (Hlen & Hstk & Hnz & Hents & Hpref).
   assert (Hs' : short l') by (eapply short_suffix; [exact Hs|cbn [length]; lia]).
   destruct (c =? ch_e).
   { destruct (s_stack st) as [|n stk'] eqn:Estk.
@@ -215,7 +235,8 @@ Proof.
     - eapply goodr_weaken; [apply IH; [exact Hs'|]|cbn [length]; lia|cbn [length]; lia].
       unfold inv, top_key in *. cbn [s_cur s_stack s_ents]. rewrite Estk in *.
       cbn [stack_ok hd] in *. destruct Hstk as (H1 & H2 & H3).
-      repeat split; [exact Hlen|exact H3| |exact Hents]. intros i Hi. apply Hnz. lia. }
+      split; [exact Hlen|]. split; [exact H3|]. split; [intros i Hi; apply Hnz; lia|]. split; [exact Hents|].
+      eapply pref_ok_le; [exact Hpref|lia]. }
   destruct (c_string_safe (c :: l') Hs) as (A0 & B0 & C0).
   destruct (c_string (c :: l')) as [rk rest| | |] eqn:Ecs; try congruence; [|apply goodr_reject].
   specialize (C0 _ _ eq_refl).
@@ -224,20 +245,22 @@ Proof.
   set (nk := top_key st) in *. set (klen := N.of_nat (length rk)).
   (* a continuation after skipping the value: same stack / entries, any 18-byte buffer that keeps the prefix *)
   assert (Hskip : forall b, length b = 18%nat -> (forall i, (i < N.to_nat nk)%nat -> nth i b 0 <> 0) ->
+            pref_ok tbl nk b ->
             goodr (length tbl) (c :: l') (length (c :: l') + 1 <= S f)%nat
               match skip_c rest with
               | Ok _ rest' => sm_loop tbl f (mkst (s_cursor st) (s_stack st) b (s_ents st)) rest'
               | Reject => Reject | Fault => Fault | OutOfFuel => OutOfFuel
               end).
-  { intros b Hb Hbz. destruct (skip_c_total rest Hsr) as (A & B & C).
+  { intros b Hb Hbz Hbp. destruct (skip_c_total rest Hsr) as (A & B & C).
     destruct (skip_c rest) as [u rest'| | |]; try congruence; [|apply goodr_reject].
     specialize (C _ _ eq_refl).
     eapply goodr_weaken; [apply IH; [eapply short_suffix; [exact Hsr|lia]|]|lia|cbn [length] in *; lia].
     unfold inv, top_key. cbn [s_cur s_stack s_ents]. repeat split; assumption. }
   replace ((max_key + two64 - nk) mod two64) with (16 - nk)
     by (rewrite max_key_val; unfold two64; lia).
-  destruct (N.leb_spec (16 - nk) klen) as [Hlong|Hfit].
-  { destruct st as [cu sk cb en]. cbn [s_cursor s_stack s_cur s_ents] in *. apply (Hskip cb Hlen Hnz). }
+  destruct ((16 - nk <=? klen) || existsb is_not_key_char rk) eqn:Eskip.
+  { destruct st as [cu sk cb en]. cbn [s_cursor s_stack s_cur s_ents] in *. apply (Hskip cb Hlen Hnz Hpref). }
+  apply orb_false_iff in Eskip. destruct Eskip as [Hfit Hplain]. apply N.leb_gt in Hfit.
   assert (Hroom : (N.to_nat nk + length rk <= 15)%nat) by (unfold klen in Hfit; lia).
   destruct (buf_write_some rk (s_cur st) (N.to_nat nk)) as (b1 & -> & Lb1 & Hb1); [lia|].
   destruct (set_nth_some b1 (N.to_nat (nk + klen)) 0) as (b2 & -> & Lb2 & Hb2); [unfold klen; lia|].
@@ -247,14 +270,17 @@ Proof.
   assert (Hnz2 : forall i, (i < N.to_nat nk)%nat -> nth i b2 0 <> 0).
   { intros i Hi. rewrite Hb2. destruct (Nat.eqb_spec i (N.to_nat (nk + klen))); [lia|].
     rewrite Hb1 by exact Hi. apply Hnz, Hi. }
+  assert (Hpref2 : pref_ok tbl nk b2).
+  { eapply pref_ok_buf; [exact Hpref|]. apply firstn_nth_ext; [lia|lia|].
+    intros i Hi. rewrite Hb2. destruct (Nat.eqb_spec i (N.to_nat (nk + klen))); [lia|]. apply Hb1, Hi. }
   assert (Hge : (N.to_nat nk <= len)%nat).
   { destruct (Nat.le_gt_cases (N.to_nat nk) len) as [|Hlt]; [assumption|]. exfalso. apply (Hnz2 len Hlt), Hl2. }
   assert (Hcs : length (firstn len b2) = len) by (apply firstn_length_le; lia).
   destruct (find_key_spec (skipn (s_cursor st) tbl) (s_cursor st) (firstn len b2)) as [FA FB];
     [apply keys_ok_skipn, Hkeys|rewrite Hcs; unfold klen in *; lia|].
   destruct (find_key (skipn (s_cursor st) tbl) (s_cursor st) (firstn len b2)) as [| |pos base] eqn:Efk;
-    [congruence|apply (Hskip b2); [lia|exact Hnz2]|].
-  destruct (FB _ _ eq_refl) as (Hpos & Hbase & Hbnz & idx & k & Enth & Hterm & _).
+    [congruence|apply (Hskip b2); [lia|exact Hnz2|exact Hpref2]|].
+  destruct (FB _ _ eq_refl) as (Hpos & Hbase & Hbnz & idx & k & Enth & Hterm & Hcb).
   rewrite Hcs in Hbase.
   rewrite nth_error_skipn in Enth. replace (s_cursor st + (pos - s_cursor st))%nat with pos in Enth by lia.
   rewrite Enth.
@@ -283,7 +309,7 @@ Proof.
     specialize (C _ _ eq_refl).
     destruct (store_total tbl (s_ents st) pos idx k o Ht Enth Hents) as (e' & -> & He').
     eapply goodr_weaken; [apply IH; [eapply short_suffix; [exact Hsr|lia]|]|lia|cbn [length] in *; lia].
-    unfold inv, top_key. cbn [s_cur s_stack s_ents]. split; [lia|]. split; [exact Hstk|]. split; [exact Hnz2|exact He'].
+    unfold inv, top_key. cbn [s_cur s_stack s_ents]. split; [lia|]. split; [exact Hstk|]. split; [exact Hnz2|]. split; [exact He'|exact Hpref2].
   - (* "::" : enter a nested dictionary *)
     change ((ch_colon =? 0) || (ch_colon =? ch_star)) with false. change (ch_colon =? ch_colon) with true. cbv iota.
     destruct rest as [|c1 rest1]; [apply goodr_reject|].
@@ -296,11 +322,24 @@ Proof.
       destruct (set_nth_some b3 (N.to_nat (base + 1)) ch_colon) as (b4 & -> & Lb4 & Hb4); [lia|].
       eapply goodr_weaken; [apply IH; [eapply short_suffix; [exact Hsr|cbn [length]; lia]|]|cbn [length] in *; lia|cbn [length] in *; lia].
       unfold inv, top_key. cbn [s_cur s_stack s_ents hd stack_ok]. split; [lia|].
-      split; [fold (top_key st); fold nk; repeat split; [lia|lia|exact Hstk]|]. split; [|exact Hents].
+      split; [fold (top_key st); fold nk; repeat split; [lia|lia|exact Hstk]|].
+      split; [|split; [exact Hents|]].
+      { intros i Hi. rewrite Hb4, Hb3.
+        destruct (Nat.eqb_spec i (N.to_nat (base + 1))); [discriminate|].
+        destruct (Nat.eqb_spec i (N.to_nat base)); [discriminate|]. apply Hl3. lia. }
+      right. exists pos, idx, k. split; [exact Enth|].
+      apply kat_inv in Ek0, Ek1. destruct Ek0 as [_ Ek0]. destruct Ek1 as [_ Ek1].
+      assert (Hlk : (N.to_nat (base + 2) <= length k)%nat).
+      { assert (nth (N.to_nat (base + 1)) k 0 <> 0) by (rewrite <- Ek1; discriminate).
+        apply nth_nonzero_lt in H. lia. }
+      apply firstn_nth_ext; [lia|exact Hlk|].
       intros i Hi. rewrite Hb4, Hb3.
-      destruct (Nat.eqb_spec i (N.to_nat (base + 1))); [discriminate|].
-      destruct (Nat.eqb_spec i (N.to_nat base)); [discriminate|]. apply Hl3. lia.
-    + apply (Hskip b2); [lia|exact Hnz2].
+      destruct (Nat.eqb_spec i (N.to_nat (base + 1))) as [->|]; [exact Ek1|].
+      destruct (Nat.eqb_spec i (N.to_nat base)) as [->|]; [exact Ek0|].
+      assert (Hi' : (i < len)%nat) by lia.
+      rewrite <- (nth_firstn_lt len b2 i 0 Hi'). rewrite <- (nth_pad_key k i) by lia.
+      apply count_base_full; [rewrite Hcs; lia|rewrite Hcs; exact Hi'].
+    + apply (Hskip b2); [lia|exact Hnz2|exact Hpref2].
   - (* "[]" : list elements into consecutive entries *)
     change ((ch_lbr =? 0) || (ch_lbr =? ch_star)) with false. change (ch_lbr =? ch_colon) with false.
     change (ch_lbr =? ch_lbr) with true. cbv iota.
@@ -317,8 +356,8 @@ Proof.
         try congruence; [|apply goodr_reject|exfalso; apply B; [lia|reflexivity]].
       destruct (C _ _ eq_refl) as [C1 C2]. cbn [snd] in C2.
       eapply goodr_weaken; [apply IH; [eapply short_suffix; [exact Hsr1|lia]|]|cbn [length] in *; lia|cbn [length] in *; lia].
-      unfold inv, top_key. cbn [s_cur s_stack s_ents]. split; [lia|]. split; [exact Hstk|]. split; [exact Hnz2|exact C2].
-    + apply (Hskip b2); [lia|exact Hnz2].
+      unfold inv, top_key. cbn [s_cur s_stack s_ents]. split; [lia|]. split; [exact Hstk|]. split; [exact Hnz2|]. split; [exact C2|exact Hpref2].
+    + apply (Hskip b2); [lia|exact Hnz2|exact Hpref2].
 Qed.
 
 (* static_map_read_bencode_c on a map of the table's size *)
@@ -338,4 +377,56 @@ Theorem static_map_total tbl l : table_ok tbl = true -> short l ->
   (forall e r, sm_read tbl l = Ok e r -> (length r < length l)%nat /\ length e = length tbl).
 Proof.
   intros Ht Hs. apply sm_read_into_total; [exact Ht|exact Hs|]. unfold empty_entries. apply repeat_length.
+Qed.
+
+(* ---- key exactness (after fix a215a35). `inv` holds for the initial state and is re-established at
+   every recursive call in the proof of sm_loop_total, i.e. at every iteration of every run. In any
+   such state, when the lookup of an input key rk succeeds at table row (idx, k) with terminator
+   position base, then rk is byte for byte the component k[next_key .. base) of the table key, the
+   terminator follows it directly (no truncation: base = next_key + |rk|), and the part of the buffer
+   below next_key is k's own prefix (and, by pref_ok, the "::"-terminated prefix of the row matched
+   when the enclosing dictionary was entered). *)
+Theorem static_map_key_exact tbl st rk b1 b2 len pos base :
+  table_ok tbl = true -> inv tbl st ->
+  N.of_nat (length rk) < 16 - top_key st -> existsb is_not_key_char rk = false ->
+  buf_write (s_cur st) (N.to_nat (top_key st)) rk = Some b1 ->
+  set_nth b1 (N.to_nat (top_key st + N.of_nat (length rk))) 0 = Some b2 ->
+  c_strlen b2 = Some len ->
+  find_key (skipn (s_cursor st) tbl) (s_cursor st) (firstn len b2) = FkSome pos base ->
+  exists idx k, nth_error tbl pos = Some (idx, k) /\ is_term k base /\
+    base = top_key st + N.of_nat (length rk) /\
+    (forall j, (j < length rk)%nat -> nth (N.to_nat (top_key st) + j) k 0 = nth j rk 0) /\
+    (forall j, (j < N.to_nat (top_key st))%nat -> nth j k 0 = nth j (s_cur st) 0).
+Proof.
+  intros Ht (Hlen & Hstk & Hnz & Hents & Hpref) Hfit Hplain E1 E2 E3 E4.
+  pose proof (stack_top_le _ Hstk) as Htop. fold (top_key st) in Htop.
+  set (nk := top_key st) in *.
+  destruct (buf_write_inv _ _ _ _ E1) as (L1 & P1). pose proof (buf_write_content _ _ _ _ E1) as C1.
+  destruct (set_nth_inv _ _ _ _ E2) as (_ & L2 & N2).
+  destruct (c_strlen_spec _ _ E3) as (S1 & S2 & S3).
+  assert (Hlenv : len = (N.to_nat nk + length rk)%nat).
+  { destruct (Nat.lt_trichotomy len (N.to_nat nk + length rk)) as [Hlt|[Heq|Hgt]]; [exfalso|exact Heq|exfalso].
+    - rewrite N2 in S2. destruct (Nat.eqb_spec len (N.to_nat (nk + N.of_nat (length rk)))); [lia|].
+      destruct (Nat.lt_ge_cases len (N.to_nat nk)) as [Hl|Hg].
+      + rewrite P1 in S2 by exact Hl. apply (Hnz len Hl S2).
+      + replace len with (N.to_nat nk + (len - N.to_nat nk))%nat in S2 by lia.
+        rewrite C1 in S2 by lia. destruct (not_key_char_nonzero rk Hplain (len - N.to_nat nk)%nat) as [Hz _]; [lia|]. apply Hz, S2.
+    - apply (S3 (N.to_nat nk + length rk)%nat Hgt). rewrite N2.
+      replace (N.to_nat (nk + N.of_nat (length rk))) with (N.to_nat nk + length rk)%nat by lia.
+      rewrite Nat.eqb_refl. reflexivity. }
+  assert (Hcs : length (firstn len b2) = len) by (apply firstn_length_le; lia).
+  destruct (find_key_spec (skipn (s_cursor st) tbl) (s_cursor st) (firstn len b2)) as [_ FB];
+    [apply keys_ok_skipn, table_ok_keys, Ht|rewrite Hcs; lia|].
+  destruct (FB _ _ E4) as (Hpos & Hbase & _ & idx & k & Enth & Hterm & Hcb).
+  rewrite Hcs in Hbase.
+  rewrite nth_error_skipn in Enth. replace (s_cursor st + (pos - s_cursor st))%nat with pos in Enth by lia.
+  exists idx, k. split; [exact Enth|]. split; [exact Hterm|]. split; [lia|].
+  assert (Hk : forall j, (j < len)%nat -> nth j k 0 = nth j b2 0).
+  { intros j Hj. rewrite <- (nth_pad_key k j) by lia. rewrite <- (nth_firstn_lt len b2 j 0 Hj).
+    symmetry. apply count_base_full; [rewrite Hcs; lia|rewrite Hcs; exact Hj]. }
+  split.
+  - intros j Hj. rewrite Hk by lia. rewrite N2.
+    destruct (Nat.eqb_spec (N.to_nat nk + j) (N.to_nat (nk + N.of_nat (length rk)))); [lia|]. apply C1, Hj.
+  - intros j Hj. rewrite Hk by lia. rewrite N2.
+    destruct (Nat.eqb_spec j (N.to_nat (nk + N.of_nat (length rk)))); [lia|]. apply P1, Hj.
 Qed.
